@@ -120,6 +120,7 @@ theorem c05_spine_from (t : Tree) (hwf : t.wf = true) (h : Nat) (hs : startOK t.
       A.getLast?.map (·.frame) = (spineAt t.err 1 t.root h)[k - 1]? ∧
       (∀ r, r ∈ A → r.frame ∈ (spineAt t.err 1 t.root h).take k ∨
         (r.branches = [] ∧ (replay (events t))[r.frame]?.map (·.noPy) = some true)) ∧
+      (B ≠ [] → ∃ last, A.getLast? = some last ∧ last.branches = []) ∧
       (k = (spineAt t.err 1 t.root h).length ∨
         (B = [] ∧ ∃ last h', A.getLast? = some last ∧ last.branches.getLast? = some h' ∧
           startOK t.err 1 t.root h' = true ∧
@@ -128,7 +129,7 @@ theorem c05_spine_from (t : Tree) (hwf : t.wf = true) (h : Nat) (hs : startOK t.
   obtain ⟨hc, ho⟩ := hwf
   have hr := startOK_range t.err t.root 1 h hs
   have hop : onePath t.err t.root = true := by simpa [Tree.root, onePath] using ho
-  obtain ⟨A, B, k, h1, h2, h3, h4, h5, h6, h7, h8, hx, h9⟩ := rowsAt_spine t.err t.root 1 h hop hs
+  obtain ⟨A, B, k, h1, h2, h3, h4, h5, h6, h7, h8, hx, hy, h9⟩ := rowsAt_spine t.err t.root 1 h hop hs
   rw [c05_unpack_rows t hc h hr.1 hr.2, h1, trim_pushDown_run t.err A B h2 h3 h4]
   obtain ⟨hB1, _⟩ := below_rows t.err B h4
   have hlast : (clearErr A).getLast? = A.getLast? := clearErr_getLast A
@@ -136,7 +137,7 @@ theorem c05_spine_from (t : Tree) (hwf : t.wf = true) (h : Nat) (hs : startOK t.
     refine ⟨A.getLast h2, List.getLast?_eq_some_getLast h2, h3 _ (List.getLast_mem h2)⟩
   obtain ⟨a, ha1, ha2⟩ := hAl
   refine ⟨clearErr A, stripNone (pushDown B), k, rfl, clearErr_ne_nil A h2, clearErr_dropLast A, ?_, hB1, ?_, h5, h6,
-    ?_, ?_, ?_, ?_⟩
+    ?_, ?_, ?_, ?_, ?_⟩
   · rw [hlast, ha1]; simp [ha2]
   · intro b hb
     obtain ⟨x, hx'⟩ := stripNone_getLast _ b hb
@@ -173,6 +174,11 @@ theorem c05_spine_from (t : Tree) (hwf : t.wf = true) (h : Nat) (hs : startOK t.
       have hrg := isStep_range t.root 1 _ hx1.2
       rw [(c05_frames t hc).2.2 _ hrg.1]
       exact frameAt_noPy t.root 0 none 1 _ hx1.2
+  · intro hB'
+    have hBne : B ≠ [] := by
+      intro h0; subst h0; exact hB' (by simp [pushDown, stripNone])
+    obtain ⟨last, hl1, hl2⟩ := hy hBne
+    exact ⟨last, by rw [hlast]; exact hl1, hl2⟩
   · rcases h9 with h9 | ⟨hB, last, h', hl, hm, hn⟩
     · exact Or.inl h9
     · refine Or.inr ⟨?_, last, h', by rw [hlast]; exact hl, hm, hn.1, hn.2⟩
@@ -193,6 +199,7 @@ theorem c05_spine (t : Tree) (hwf : t.wf = true) :
       A.getLast?.map (·.frame) = ((spine (callsOf (events t)) t.err).map (·.idx))[k - 1]? ∧
       (∀ r, r ∈ A → r.frame ∈ ((spine (callsOf (events t)) t.err).map (·.idx)).take k ∨
         (r.branches = [] ∧ (replay (events t))[r.frame]?.map (·.noPy) = some true)) ∧
+      (B ≠ [] → ∃ last, A.getLast? = some last ∧ last.branches = []) ∧
       (k = (spine (callsOf (events t)) t.err).length ∨
         (B = [] ∧ ∃ last h', A.getLast? = some last ∧ last.branches.getLast? = some h' ∧
           startOK t.err 1 t.root h' = true ∧
@@ -278,25 +285,66 @@ theorem c05_branches_unchained (K : Kids) (h : Nat) (prev : Option Nat) (n : Nat
 
 /-! ### (c) the last row -/
 
-/- The full statement of clause (c) — *the last row of `unpack … 1` is the innermost call that
-   raised the root error* —
+/-- **every row after the first shows an error** (before errors are pushed down): the loop of the
+    repaired `_unpack_stack` descends into a LAST_CHILD_SCOPE only if it has a CUR_ERROR, i.e. by
+    `c05_frames` only into a call that raised or a completed step of a chain that raised. -/
+theorem c05_rows_show_errors (t : Tree) (j : Nat) (r : Row) (hr : r ∈ (rowsAt 1 t.root j).tail) : r.error ≠ none :=
+  rowsAt_tail_error t.root 1 j r hr
 
-     theorem c05_last_row (t : Tree) (hwf : t.wf = true) :
-         (unpack (replay (events t)) 1).getLast?.map (·.frame) =
-           ((spine (callsOf (events t)) t.err).map (·.idx)).getLast?
+/-- **(c) the last row is a call that raised, and it shows that call's own error**: never a call
+    that returned normally (in particular not a completed chain step).  Together with `c05_spine`:
+    the rows end at the innermost call that raised the root error (`B = []`, `k = sp.length`), or
+    with the only failed branch of that call, which it caught, shown linearly below it (`B ≠ []`,
+    then the call's row shows no branches), or at a call that shows its branches, the last of which
+    is the branch that really raised (`k < sp.length`). -/
+theorem c05_last_row (t : Tree) (hc : chainOk true t.root = true) :
+    ∃ last c, (unpack (replay (events t)) 1).getLast? = some last ∧
+      c ∈ callsOf (events t) ∧ c.idx = last.frame ∧ c.result = last.error ∧ last.error ≠ none := by
+  have hsz : 1 < 1 + t.root.size := by simp [Tree.root, Kids.size]; omega
+  rw [c05_unpack_rows t hc 1 (by omega) hsz, callsOf_events]
+  have hne : rowsAt 1 t.root 1 ≠ [] := rowsAt_first_ne_nil 1 false t.info t.kids (some t.err) .nil
+  have hhead := rowsAt_head_error t.root 1 1 t.err (by simp [segResAt, segRes, Tree.root, Kids.startsChained])
+  obtain ⟨r, hr⟩ : ∃ r, (rowsAt 1 t.root 1).getLast? = some r := ⟨_, List.getLast?_eq_some_getLast hne⟩
+  have hre : r.error ≠ none := by
+    cases hl : rowsAt 1 t.root 1 with
+    | nil => exact absurd hl hne
+    | cons a l =>
+      rw [hl] at hr hhead
+      rcases getLast?_cons_cases a l r hr with ⟨_, h1⟩ | ⟨_, h1⟩
+      · subst h1; simp at hhead; simp [hhead]
+      · exact rowsAt_tail_error t.root 1 1 r (by rw [hl]; exact List.mem_of_getLast? h1)
+  obtain ⟨c, hcm, h1, h2⟩ := rowsAt_last t.root none 1 1 r hr hre
+  have hpl : (pushDown (rowsAt 1 t.root 1)).getLast? = some r := by rw [pushDown_getLast]; exact hr
+  rw [trimTail_of_last _ r hpl hre]
+  exact ⟨r, c, hpl, hcm, h1, h2, hre⟩
 
-   is false: see `c05_last_row_counterexample`.  What holds in general is in `c05_spine`: exactly
-   one row shows the root error, it is the innermost call of the listed path, and the rows after it
-   show other errors.  What holds of the last row is `c05_last_row_partial`. -/
+/-! ### the loop before the repair (glom commit effa985~1) -/
+
+/-- `_unpack_stack`'s loop as it was: without the stop at a last child that returned normally -/
+def unpackLoopOld (fs : Array Frame) : Nat → Nat → List Row → List Row
+  | 0, _, acc => acc
+  | fuel + 1, cur, acc =>
+    match fs[cur]? with
+    | none => acc
+    | some f =>
+      match f.lastChild with
+      | none => acc ++ [⟨cur, f.curError, []⟩]
+      | some child =>
+        let branches := if f.childErrors == [child] then [] else f.childErrors
+        let acc' := acc ++ [⟨cur, f.curError, branches⟩]
+        if branches.contains child then acc' else unpackLoopOld fs fuel child acc'
+
+def unpackOld (fs : Array Frame) (start : Nat) : List Row :=
+  trimTail (pushDown (unpackLoopOld fs fs.size start []))
 
 /-- **(c), partial**: when no other error than the root error was raised during the evaluation
     (no caught failure anywhere), the last row of the trace is the row that shows the root error,
     and it is a call the root error propagated through. -/
-theorem c05_last_row_partial (t : Tree) (hwf : t.wf = true) (honly : ∀ x, x ∈ errsOf t.root → x = t.err) :
+theorem c05_last_row_only_error (t : Tree) (hwf : t.wf = true) (honly : ∀ x, x ∈ errsOf t.root → x = t.err) :
     (unpack (replay (events t)) 1).getLast?.map (·.error) = some (some t.err) ∧
     ∃ f, (unpack (replay (events t)) 1).getLast?.map (·.frame) = some f ∧
       f ∈ (spine (callsOf (events t)) t.err).map (·.idx) := by
-  obtain ⟨A, B, k, h1, h2, _, h4, _, h6, h7, h8, _, h10, _, _⟩ := c05_spine t hwf
+  obtain ⟨A, B, k, h1, h2, _, h4, _, h6, h7, h8, _, h10, _, _, _⟩ := c05_spine t hwf
   have hB : B = [] := by
     cases hb : B.getLast? with
     | none => simpa using hb
@@ -321,14 +369,17 @@ def notNotTree : Tree :=
      none .nil,
    2⟩
 
-/-- **(c) does not hold in general**: in a well-formed tree the rows can go on *below* the call
-    that raised the root error — into its last sub-evaluation, which returned — and end with a call
-    that did not fail with the root error, showing a caught error (here call 3 with error 1; the
-    root error 2 was raised by call 1, the only call it propagated through). -/
+/-- **Before the repair clause (c) failed**: in a well-formed tree the rows of the old loop went on
+    *below* the call that raised the root error — into its last sub-evaluation, which returned
+    normally (row 2, `Not('x')`) — and ended with a caught error (call 3 with error 1; the root
+    error 2 was raised by call 1, the only call it propagated through).  The repaired loop stops
+    at call 1. -/
 theorem c05_last_row_counterexample :
     notNotTree.wf = true ∧
     (spine (callsOf (events notNotTree)) notNotTree.err).map (·.idx) = [1] ∧
-    unpack (replay (events notNotTree)) 1 = [⟨1, some 2, []⟩, ⟨2, none, []⟩, ⟨3, some 1, []⟩] := by
+    unpackOld (replay (events notNotTree)) 1 = [⟨1, some 2, []⟩, ⟨2, none, []⟩, ⟨3, some 1, []⟩] ∧
+    ((callsOf (events notNotTree)).filter (fun c => c.idx == 2)).map (·.result) = [none] ∧
+    unpack (replay (events notNotTree)) 1 = [⟨1, some 2, []⟩] := by
   decide
 
 /-! ### the hypotheses are needed -/
@@ -412,7 +463,16 @@ example : (spine (callsOf (events orTree)) orTree.err).map (·.idx) = [1, 3, 4] 
 example : unpack (replay (events orTree)) 1 = [⟨1, some 2, [2, 3]⟩] := by decide
 example : startOK orTree.err 1 orTree.root 3 = true ∧ spineAt orTree.err 1 orTree.root 3 = [3, 4] := by decide
 example : unpack (replay (events orTree)) 3 = [⟨3, none, []⟩, ⟨4, some 2, []⟩] := by decide
-/-- `c05_last_row_partial`'s hypothesis is satisfiable: a linear failure, the only error -/
+/-- `glom({}, Coalesce('x'))`: the only branch fails and is caught, the Coalesce raises the root
+    error 2: `B ≠ []` — the caught branch is shown linearly below the call that raised (whose row
+    has no branches), and the last row is a call that raised (its own error 1) -/
+def oneBranchTree : Tree :=
+  ⟨ii "Coalesce('x')" "{}", .cons false (ii "'x'" "{}") .nil (some 1) .nil, 2⟩
+
+example : oneBranchTree.wf = true := by decide
+example : unpack (replay (events oneBranchTree)) 1 = [⟨1, some 2, []⟩, ⟨2, some 1, []⟩] := by decide
+
+/-- `c05_last_row_only_error`'s hypothesis is satisfiable: a linear failure, the only error -/
 example : ∀ x, x ∈ errsOf (Tree.root ⟨ii "'a.b'" "{}", .cons false (ii "T['a']['b']" "{}") .nil (some 1) .nil, 1⟩) → x = 1 := by
   decide
 
